@@ -44,11 +44,14 @@ class C08(MTCheck):
     ]
     assumptions = [
         "API contract (excluded by the generator and by `step`): no iv_event_unregister(e) while another thread is inside "
-        "iv_event_post(e), no post to an unregistered event, register/unregister only by the owner thread, handlers return",
+        "iv_event_post(e), no post to an unregistered event, register/unregister only by the owner thread, handlers return; "
+        "scripts unregister only owner-private events (posted by the owner thread alone), never events other threads post to",
         "kernel contract: a wait does not block while the one-shot kick is armed / the raw descriptor counter is non-zero, and "
         "reports the kick descriptor only then; fewer than 1024 unread raw pipe posts",
         "the forced raw transport (event_rx_on failing under epoll) is not reachable in the harness; raw transport = backends pp/po, "
         "with eventfd and with the pipe fallback",
+        "partial: only baton-scheduled (sequentially consistent, switch at synchronisation points) runs; the free-running stress of "
+        "DESIGN.md C08 is not part of this check",
     ]
     rule = ("cases = seeded random scenarios: 1-2 owner loops, 1-3 poster threads (2-7 posts/yields each), iv_thread helpers created "
             "from handlers that post, 2-4 shared + 0-2 owner-private events per loop, handler scripts that post to the own loop / the "
@@ -205,6 +208,14 @@ class C08(MTCheck):
         "Bep;M30;Z1101001;L0:er0 er1 er2 ep0.2 ep0.1;P1:ep0.0 ep0.0;H0e2:eu1 er1 ep0.1/-;H0e1:-;H0e0:ep0.2/-",
         "Bet;M30;Z0101010101;L0:er0 er1;P1:ep0.0 ep0.1 y ep0.0;H0e0:q;H0e1:-",
         "Bet;M30;Z1112220;L0:er0 rr0;P1:rp0.0 ep0.0;P2:ep0.0 rp0.0;H0e0:-;H0r0:ep0.0",
+        # shrunk killers of the hand-made mutants: events_local path; handler unregisters the rest of its batch (empty_now
+        # re-check); unregistration of a queued event; kick while the owner runs a batch; two loops kicking each other
+        "Bpp;M20;L0:er1 ep0.1",
+        "Bep;M30;L0:er2 ep0.2",
+        "Bet;M30;Z1111;L0:er0 er1 ep0.0 ep0.1;H0e0:eu1;H0e1:-",
+        "Bet;M30;Z1111000;L0:er0 er1 er2;P1:ep0.0 ep0.1 ep0.2;H0e0:eu1 eu2;H0e1:-;H0e2:-",
+        "Bpo;M30;Z11110100;L0:er0 er1;P1:ep0.0 ep0.1 ep0.0 ep0.1;H0e0:y y;H0e1:y",
+        "Bet;M40;Z0101201201;L0:er0;L1:er0;P2:ep0.0 ep1.0;H0e0:ep1.0/-;H1e0:ep0.0/-",
     ]
 
     def cases(self, ctx):
@@ -214,7 +225,7 @@ class C08(MTCheck):
         if os.path.exists(corpus):
             cases += [l.rstrip("\n") for l in open(corpus) if l.strip()]
         cases += self.FIXED
-        n = 1800 if ctx.tier == "quick" else 40000
+        n = 1800 if ctx.tier == "quick" else 150000
         for _ in range(n):
             cases.append(self.scenario(rng))
         return cases
@@ -290,6 +301,13 @@ class C08(MTCheck):
 
     def correspond(self, ctx, cases):
         st = MTCheck.correspond(self, ctx, cases)
+        # a rejected log on which the extracted monitor fails too is a failing input of the property
+        # (lost post / over-delivery / wrong thread), not only a broken correspondence
+        both = [(idx, v) for idx, v in st["div"] if "; also C08 monitor" in v]
+        if both:
+            seen = {idx for idx, _ in st["monfail"]}
+            st["monfail"] += [(idx, v) for idx, v in both if idx not in seen]
+            st["div"] = [(idx, v) for idx, v in st["div"] if "; also C08 monitor" not in v]
         agg = getattr(self, "agg", {})
         for idx, c in enumerate(cases):
             io = st["ires"][idx][0]
